@@ -6,7 +6,8 @@ from lib.terms import g_term, g_list, g_pair, g_nat
 ID = 'C02'
 IMPORTS = ['Unify.Unify', 'Unify.RunUnify']
 THEOREMS = ['C02_unify_sound', 'C02_unify_complete_mgu', 'C02_unify_most_general', 'C02_unify_fail_no_unifier', 'C02_unify_sym_ok', 'C02_unify_sym_fail', 'C02_unify_functor_arity', 'C02_unify_fuel_irrelevant', 'C02_unify_equivariant', 'C02_unify_increment', 'C02_unify_yields_at_most_once', 'C02_generator_is_unify']
-RULE = ('random pairs of terms (depth <= 4, atoms/ints/strs/variables/compound/lists/partial lists; the second '
+RULE = ('ALL 576 pairs of terms of depth <= 2 over {a, b, X0, X1, f/1, g/2} exhaustively (thorough tier: also under 3 active bindings), plus '
+        'random pairs of terms (depth <= 4, atoms/ints/strs/variables/compound/lists/partial lists; the second '
         'term is with probability 1/2 a mutation of the first so that most pairs nearly unify) under a stack of 0-4 '
         'earlier unifications that are still suspended; atoms come from two engine instances; each pair is also run '
         'swapped. Non-trivial: both sides compound or a variable chain of length >= 2 is involved, and the two sides '
@@ -43,7 +44,21 @@ def gen(rng, tier):
         if rng.random() < 0.5:
             t1, t2 = t2, t1
         cases.append({'stack': stack, 't1': t1, 't2': t2, 'nvars': nv, 'engsalt': rng.randrange(4)})
+    cases.extend(exhaustive_pairs(tier))
     return cases
+
+def exhaustive_pairs(tier):
+    """ALL pairs of terms of depth <= 2 over {a, b, X0, X1, f/1, g/2} (24 terms, 576 pairs), started from no active
+    binding and - thorough tier - also under each of the active bindings X0 = X1, X0 = a, X1 = f(X0)"""
+    leaves = [['a', 'a'], ['a', 'b'], ['v', 0], ['v', 1]]
+    ts = list(leaves) + [['f', 'f', [x]] for x in leaves] + [['f', 'g', [x, y]] for x in leaves for y in leaves]
+    stacks = [[]] if tier == 'quick' else [[], [[['v', 0], ['v', 1]]], [[['v', 0], ['a', 'a']]], [[['v', 1], ['f', 'f', [['v', 0]]]]]]
+    out = []
+    for st in stacks:
+        for t1 in ts:
+            for t2 in ts:
+                out.append({'stack': st, 't1': t1, 't2': t2, 'nvars': 2, 'engsalt': 0, 'origin': 'exhaustive'})
+    return out
 
 def builtin_corpus():
     a, b = ['a', 'a'], ['a', 'b']
@@ -214,7 +229,8 @@ def shrink(case):
                         yield c
 
 def distribution(cases, obs):
-    d = {'ok': 0, 'fail': 0, 'cyc-or-deep': 0, 'stack-fails': 0, 'other': 0, 'stack_depth': {}, 'both_compound': 0}
+    d = {'ok': 0, 'fail': 0, 'cyc-or-deep': 0, 'stack-fails': 0, 'other': 0, 'stack_depth': {}, 'both_compound': 0,
+         'exhaustive_small_scope_pairs': sum(1 for c in cases if c.get('origin') == 'exhaustive')}
     for c, o in zip(cases, obs):
         if isinstance(o, dict):
             d[o['fwd']['res'][0] if o['fwd']['res'][0] in ('ok', 'fail') else 'other'] += 1
